@@ -148,8 +148,44 @@ func ruleShutdown(c *core.Ctx, a *epAnchors) {
 	c.Check(free, rule, "bus/net.endPoint.closeWith/stream-close-unlocked", fn.Pos(), "the stream is closed before handlersMutex is taken",
 		"the stream is closed while holding handlersMutex: dispatch can hold that mutex while blocked writing to a peer that does not read, so Close waits for the mutex and the writer waits for the stream (deadlock, handlers are never closed)")
 
-	// every non-nil slot closed with the error
+	// every non-nil slot closed with the error; the walk over the table may live in
+	// a helper of closeWith that is handed the error (closeHandlers(err))
 	errParam := ssa.Value(fn.Params[1])
+	outer := fn
+	hasH := func(f *ssa.Function) bool {
+		for _, call := range core.Calls(f) {
+			if core.IsCallTo(call, a.hCloseWith) {
+				return true
+			}
+		}
+		return false
+	}
+	if !hasH(fn) {
+		for _, call := range core.Calls(outer) {
+			h := core.StaticCallee(call)
+			if h == nil || !isPrivateHelper(c, h) || !hasH(h) {
+				continue
+			}
+			if _, plain := call.(*ssa.Call); !plain {
+				continue
+			}
+			for i, arg := range call.Common().Args {
+				if core.SameValue(arg, errParam) && i < len(h.Params) {
+					// the helper runs on every path of closeWith
+					every := true
+					for _, ret := range core.Returns(outer) {
+						if !core.MustPassBefore(outer, ret, func(x ssa.Instruction) bool { return x == call.(ssa.Instruction) }) {
+							every = false
+						}
+					}
+					if every {
+						fn = h
+						errParam = h.Params[i]
+					}
+				}
+			}
+		}
+	}
 	var hcalls []ssa.CallInstruction
 	for _, call := range core.Calls(fn) {
 		if core.IsCallTo(call, a.hCloseWith) {
@@ -157,7 +193,7 @@ func ruleShutdown(c *core.Ctx, a *epAnchors) {
 		}
 	}
 	if len(hcalls) == 0 {
-		c.Fail(rule, "bus/net.endPoint.closeWith/handlers", fn.Pos(), "shutdown does not close the registered handlers: pending calls and subscriptions hang")
+		c.Fail(rule, "bus/net.endPoint.closeWith/handlers", outer.Pos(), "shutdown does not close the registered handlers: pending calls and subscriptions hang")
 		return
 	}
 	for i, hc := range hcalls {
